@@ -1,6 +1,7 @@
 import FcpptModel.Prelude.Proto
 import FcpptModel.Spec.C14
 import FcpptModel.Model.C14.Member
+import FcpptModel.Model.C14.Neighbour
 /-!
 Driver for C14.  Scalars are integers with `|e| ≤ 1000` (the harness asserts the same bound so that nothing
 overflows `long`); vectors are `a,b,c`; matrices are given as their row-major element list and printed
@@ -24,6 +25,10 @@ buffer, `r` (vectors only) a row view of a static 3×n matrix.
 * `builders x y z a b d` — `translation`, `scaling` (both overloads), `identity` 1…4, `vector::init`, `matrix::init`, `matrix::row` + row constructor
 * `bits n`               — `bit_strings<long, n>`
 * `det0`                 — determinant of the 0×0 matrix
+* `nb LR n a b axis`      — vector `a` (mode L ∈ s,r,b) and dim `b` (mode R ∈ s,b): `vector ∘ dim` for `+ - * /`, `dim::contents`,
+                           `is_quadratic`, `to_dim`, `to_vector`, `vector::unit(axis)`
+* `tp M V A v`           — `transform_point`, `transform_direction` of the 4×4 matrix `A` and the 3-vector `v`
+* `inf M r c A`          — `infinity_norm`
 * `mem F R C va vb ma mb (T op X)+` — member operators on objects in one memory (F ∈ {v,d}).  The world: static vectors (dims) `A`, `B`
                            of dimension C (values `va`, `vb`), static R×C matrices `M`, `P` (values `ma`, `mb`, row-major), a buffer
                            `[9] ++ ma ++ mb ++ [8]`.  Vector-like objects: `A`, `B`, `M<i>` / `P<i>` (row view `get_unsafe(i)` of the
@@ -525,8 +530,39 @@ def memHandle (toks : List String) : String :=
     | _, _, _ => "bad-op"
   | _ => "bad-op"
 
+def nbLine {n : Nat} (a : Vec (n + 1)) (b : Vec (n + 1)) (axis : Nat) : String :=
+  s!"vd+={showV (addD a b)} vd-={showV (subD a b)} vd*={showV (mulD a b)} vd/={showO showV (divD a b)} cont={contents b} " ++
+  s!"quad={b01 (isQuadratic b)} tod={showV (toDifferent a)} tov={showV (toDifferent b)} unit={showV (unit (n + 1) axis)}"
+
 def handle1 (toks : List String) : String :=
   match toks with
+  | ["nb", lr, n, a, b, axis] =>
+    match modeChars lr, parseDim 1 4 n, parseInts a, parseInts b, axis.toNat? with
+    | some (ml, mr), some (n + 1), some a, some b, some axis =>
+      if (ml = 's' || ml = 'r' || ml = 'b') && (mr = 's' || mr = 'b') && axis ≤ n + 1 then
+        match mkVec ml (n + 1) a, mkVec mr (n + 1) b with
+        | some va, some vb => nbLine va vb axis
+        | _, _ => "bad-op"
+      else "bad-op"
+    | _, _, _, _, _ => "bad-op"
+  | ["tp", mm, vm, a, v] =>
+    match modeChar mm, modeChar vm, parseInts a, parseInts v with
+    | some mm, some vm, some a, some v =>
+      if isMatMode mm && (vm = 's' || vm = 'r' || vm = 'b') then
+        match mkMat mm 4 4 a, mkVec vm 3 v with
+        | some ma, some vv => s!"tp={showV (ma.transformPoint vv)} td={showV (ma.transformDirection vv)}"
+        | _, _ => "bad-op"
+      else "bad-op"
+    | _, _, _, _ => "bad-op"
+  | ["inf", mm, r, c, a] =>
+    match modeChar mm, parseDim 1 4 r, parseDim 1 4 c, parseInts a with
+    | some mm, some r, some c, some a =>
+      if matShape r c && (mm = 's' || (mm = 'b' && matViews r c)) then
+        match mkMat mm r c a with
+        | some ma => toString ma.infinityNorm
+        | none => "bad-op"
+      else "bad-op"
+    | _, _, _, _ => "bad-op"
   | "mem" :: _ => memHandle toks
   | "mems" :: _ => memHandle toks
   | ["vec", kind, lr, n, a, b, k, i] =>
